@@ -152,3 +152,13 @@ func verifSkiplistRandomHeight(s *Skiplist) int {
 // VerifSkiplistHeightOne: kernels above the memtable index (C01/C02) do not
 // re-explore tower heights (C07 does).
 var VerifSkiplistHeightOne bool
+
+// utils.Pool (ants goroutine pool + expvar counters): every task is its own thread.
+func verifNewPool(size int, name string) *Pool { return &Pool{size: size} }
+func verifPoolSubmit(pl *Pool, fn func()) error {
+	if fn == nil {
+		return nil
+	}
+	go fn()
+	return nil
+}
